@@ -1,5 +1,6 @@
 import Cinco.Drv.FieldWire
 import Cinco.Config.Ops
+import Cinco.Config.Keys
 import Cinco.Config.Env
 import Cinco.Config.Paths
 /-
@@ -112,21 +113,23 @@ def pathsCmd (j : Json) : R Json := do
 def fuelDefault : Nat := 24
 
 /-- find the schema of the configuration reached by a dotted path -/
-def schemaAt : Nat → Schema → List Char → Option Schema
-  | 0, _, _ => none
-  | fuel + 1, s, dotted =>
-    if dotted.isEmpty then some s else
+def schemaAtK : Nat → Schema → Option String → List Char → Option (Schema × Option String)
+  | 0, _, _, _ => none
+  | fuel + 1, s, kf0, dotted =>
+    if dotted.isEmpty then some (s, kf0) else
     match partitionDot dotted with
     | (k, rest) =>
       match s.get (String.ofList k) with
       | some f => (match subSchema f with
-          | some (s', _) => (match rest with
-              | some r => schemaAt fuel s' r
-              | none => some s')
+          | some (s', kf) => (match rest with
+              | some r => schemaAtK fuel s' kf r
+              | none => some (s', kf))
           | none => (match f with
-              | .cfgList s' _ _ _ => some s'
+              | .cfgList s' _ _ _ => some (s', none)
               | _ => none))
       | none => none
+
+def schemaAt (fuel : Nat) (s : Schema) (dotted : List Char) : Option Schema := (schemaAtK fuel s none dotted).map (·.1)
 
 /-- run one operation; returns the reply and the new state -/
 def cfgOp (W : World) (s : Schema) (c : Cfg) (n : Nat) (j : Json) : R (Json × Cfg × Nat) := do
@@ -137,10 +140,11 @@ def cfgOp (W : World) (s : Schema) (c : Cfg) (n : Nat) (j : Json) : R (Json × C
     | "cfg" => do
         let same := fBoolD a "schema_same" true
         if !same then pure (.cfg (Cfg.mk n [] [] [] none false) false, n + 1) else
-        match schemaAt fuelDefault s target with
+        match schemaAtK fuelDefault s none target with
         | none => pure (.cfg (Cfg.mk n [] [] [] none false) false, n + 1)
-        | some s' =>
-          match build W "" false none s' n with
+        | some (s', kf) =>
+          -- a config type's own constructor is used for the argument: its declared key file comes with it
+          match build W "" false kf s' n with
           | .error _ => throw "cannot build argument configuration"
           | .ok (fresh, n1) =>
             match (← valOfJson (← field a "tree")) with
@@ -198,6 +202,18 @@ def cfgOp (W : World) (s : Schema) (c : Cfg) (n : Nat) (j : Json) : R (Json × C
         | none => pure none
       match toTree W fuelDefault s c (fBoolD j "virtual" false) mask with
       | some t => pure (Json.mkObj [("tree", valToJson (.dict t))], c, n)
+      | none => pure (cerrToJson (.raw "error"), c, n)
+  | "setkey" => do
+      let path ← (← fArr j "path").mapM (fun x => match x with | .str s => pure s | _ => throw "bad path")
+      let file := match fieldOpt j "file" with | some (.str f) => some f | _ => none
+      match setKeyAt c path file with
+      | some c' => pure (Json.str "ok", c', n)
+      | none => pure (cerrToJson (.raw "AttributeError"), c, n)
+  | "to_tree_keyed" => do
+      let dflt ← fStr j "default"
+      match toTreeK (markWorld W) fuelDefault dflt s c with
+      | some t => pure (Json.mkObj [("tree", valToJson (.dict t)),
+          ("keys", Json.arr ((nodeKeys fuelDefault dflt s c).map Json.str).toArray)], c, n)
       | none => pure (cerrToJson (.raw "error"), c, n)
   | o => throw s!"unknown config op {o}"
 
